@@ -172,7 +172,7 @@ def split_steps(line):
     return [tuple(s.split(" @@ ", 1)) if " @@ " in s else (s, "") for s in line.split(" ;; ")]
 
 
-def override_stream(ctx):
+def override_stream(ctx, cls_not_called="override-not-called"):
     """`impl cw_multi_test::Contract`: an overridden operation calls the override (with the decoded message / the Reply), the others dispatch"""
     exes, errors = ovbins.build()
     bad = 0
@@ -188,7 +188,7 @@ def override_stream(ctx):
         if out != want:
             bad += 1
             diff = [(x, y) for x, y in zip(out.split("; "), want.split("; ")) if x != y][:1] or [(out[:200], want[:200])]
-            cls = "proxy-error-not-surfaced" if diff[0][0].startswith("p_") else "override-not-called"
+            cls = "proxy-error-not-surfaced" if diff[0][0].startswith("p_") else cls_not_called
             ctx.violation(cls, "overriding %s: observed %s, required %s" % (", ".join(s) or "nothing", diff[0][0][:300], diff[0][1][:300]),
                           {"program": ovbins.source_of(s), "observed": out, "required": want})
     ctx.add_stream("L2-mt-overrides", len(ovbins.SETS), len(ovbins.SETS), samples=[ovbins.name_of(s) for s in ovbins.SETS[:3]], override_sets=[",".join(s) for s in ovbins.SETS], oracle_failures=bad,
